@@ -75,14 +75,14 @@ def strategy(tier):
   set_op = st.fixed_dictionaries({
       'op': st.sampled_from(['add', 'remove', 'contains', 'union', 'intersection', 'difference',
                              'update', 'intersection_update', 'difference_update', 'rebase',
-                             'has_prefix', 'copy', 'clear', 'plus', 'eq']),
+                             'has_prefix', 'copy', 'clear', 'plus', 'eq', 'kp_plus']),
       'on': st.integers(0, 1), 'p': keys(3)})
   set_keys = st.lists(st.one_of(st.sampled_from(['a', 'b', 'c', 'x.y', '0', 'a', 'b', 'c', 'x.y', '0', '$']), st.integers(0, 2)),
                       max_size=3)
   set_op2 = st.fixed_dictionaries({
       'op': st.sampled_from(['add', 'remove', 'contains', 'union', 'intersection', 'difference',
                              'update', 'intersection_update', 'difference_update', 'rebase',
-                             'has_prefix', 'copy', 'clear', 'plus', 'eq']),
+                             'has_prefix', 'copy', 'clear', 'plus', 'eq', 'kp_plus']),
       'on': st.integers(0, 1), 'p': set_keys})
   sets_case = st.fixed_dictionaries({
       'kind': st.just('sets'),
@@ -186,6 +186,14 @@ def _path_case(case, res):
     return res.violate('keys=%r printed as %r parsed back as %r' % (p, text, back.keys), law='parse-format', how='differs')
   if not (kp == text) or hash(kp) != hash(text):
     return res.violate('keys=%r: KeyPath != its own string %r (or hash differs)' % (p, text), law='str-eq')
+  # the same path built one key at a time, with the string form of every prefix already materialised
+  inc = pg.KeyPath()
+  for k in p:
+    str(inc)
+    inc = pg.KeyPath(k, inc)
+  if not _same_keys(inc.keys, list(p)) or str(inc) != text or not (inc == kp) or hash(inc) != hash(kp):
+    return res.violate('keys=%r built incrementally prints as %r, built from the key list as %r' % (p, str(inc), text),
+                       law='parse-format', how='incremental')
   if case.get('only_parse'):
     return res
   kq, kr = pg.KeyPath(list(q)), pg.KeyPath(list(r))
@@ -509,8 +517,24 @@ def _sets_case(case, res):
                            law='set-binary', op=name)
       if bool(out) != bool(m):
         return res.violate('bool(%s result) is %r with %d paths' % (name, bool(out), len(m)), law='set-bool', op=name)
-      # the result is independent of its operands
+      # the result is independent of its operands (also below nodes they have in common)
       out.add(pg.KeyPath(['__probe__']))
+      for pth in list(out)[:2]:
+        out.add(pg.KeyPath(list(pth.keys) + ['__probe__']))
+    elif name == 'kp_plus':
+      # the operator form of rebase: path + set
+      try:
+        out = kp + real[i]
+      except Exception as e:   # pylint: disable=broad-except
+        return res.violate('%r + set raised %r' % (ks, e), law='set-op-raises', op=name)
+      m = {tuple(t) + tuple(x) for x in model[i]}
+      got = [_tk(p.keys) for p in out]
+      if set(got) != m or len(got) != len(m):
+        return res.violate('%r + %r gives %r, reference %r' % (ks, sorted(map(str, model[i])), sorted(map(str, got)), sorted(map(str, m))),
+                           law='set-binary', op=name)
+      for pth in list(out)[:2]:
+        out.add(pg.KeyPath(list(pth.keys) + ['__probe__']))
+      out.add(pg.KeyPath(['__probe2__']))
     elif name == 'update':
       binary = True
       real[i].update(real[j])
